@@ -397,3 +397,32 @@ func c24Extra(r *Run) error {
 	r.census("C24/oauth-password-check-census", as+".validatePassword", 0, "", as+".AuthorizePostHandler")
 	return nil
 }
+
+// c28Extra: every writer of the cache table, of the Cache / Item records and of the configured lifetimes is one of
+// the functions under contract (so the per-operation contracts account for every way the caches can change).
+func c28Extra(r *Run) error {
+	cp := modInternal + "caches"
+	for _, g := range []string{"cacheList", "lifetimes", "active"} {
+		v := r.globalVar(cp, g)
+		r.initOK = true
+		r.writersUnderContract("C28/"+g+"-var-writers", v)
+		r.initOK = false
+		if v != nil {
+			if mt, ok := v.Type().Underlying().(*types.Map); ok {
+				r.mapWritersUnderContract("C28/"+g+"-map-writers", mt)
+			}
+		}
+	}
+	for _, f := range []string{"Items", "Expiration", "MaxSize"} {
+		r.writersUnderContract("C28/cache-"+f+"-writers", r.structField(cp, "Cache", f))
+	}
+	for _, f := range []string{"Data", "Expires"} {
+		r.writersUnderContract("C28/item-"+f+"-writers", r.structField(cp, "Item", f))
+	}
+	if f := r.structField(cp, "Cache", "Items"); f != nil {
+		if mt, ok := f.Type().Underlying().(*types.Map); ok {
+			r.mapWritersUnderContract("C28/items-map-writers", mt)
+		}
+	}
+	return nil
+}
